@@ -37,8 +37,8 @@ META = {
                    "schedule, replayed without CrossHair.",
     "assumptions": [
         "granularity: parent and workers interleave only at queue get/put, process start, exit-code visibility and consumer yields",
-        "stand-in for multiprocessing: FIFO queues without pipes/feeder threads; a finished worker's results are already in the "
-        "queue when its exit code becomes visible (multiprocessing joins the feeder thread at exit)",
+        "stand-in for multiprocessing: FIFO queues; an item put by a worker reaches the queue at the worker's next queue "
+        "operation or regular exit (multiprocessing joins the feeder thread at exit) and is lost if the worker dies through os._exit",
         "no signals, no wall-clock timeout branch (task_timeout), no externally killed workers",
         "logging disabled; tracing connector is annet's no-op default",
     ],
@@ -52,6 +52,24 @@ logging.disable(logging.CRITICAL)
 
 class Abort(BaseException):
     pass
+
+
+class HardExit(BaseException):
+    """os._exit() in a worker: the process dies at once, nothing buffered for the queue feeder is flushed"""
+
+    def __init__(self, code):
+        self.code = code
+
+
+class _OsProxy:
+    def __getattr__(self, name):
+        return getattr(os, name)
+
+    @staticmethod
+    def _exit(code):
+        if _me() is None:
+            os._exit(code)
+        raise HardExit(code)
 
 
 class Sched:
@@ -148,6 +166,10 @@ class FakeQueue:
         if w is not None:
             w.wait_queue = self
             w.park("want_put")
+            # multiprocessing hands the item to a feeder thread; it reaches the pipe before the worker's next
+            # queue operation or its regular exit (which joins the feeder), but not if the process dies abruptly
+            w.buffer.append((self, item))
+            return
         self.items.append(item)
 
     def get(self, block=True, timeout=None):
@@ -187,9 +209,16 @@ class FakeProcess:
         self.go = threading.Event()
         self.parked = threading.Event()
         self.wait_queue = None
+        self.buffer = []
         _sched.workers.append(self)
 
+    def flush(self):
+        for (q, item) in self.buffer:
+            q.items.append(item)
+        self.buffer = []
+
     def park(self, state):
+        self.flush()
         self.state = state
         self.parked.set()
         self.go.wait()
@@ -204,6 +233,9 @@ class FakeProcess:
                 self.target(*self.args)
             except SystemExit as e:
                 code = e.code if isinstance(e.code, int) else 1
+            except HardExit as e:
+                code = e.code
+                self.buffer = []
             except Abort:
                 raise
             except BaseException:  # noqa
@@ -272,9 +304,11 @@ def run_schedule(n, pool, max_tasks, raising, tolerate, decisions, tail, via_run
     global _sched
     import annet.parallel as par
     saved = par.mp
+    saved_os = par.os
     _sched = Sched(decisions, tail)
     _sched.empties = 0
     par.mp = FakeMP
+    par.os = _OsProxy()
     ids = list(range(n))
     delivered = []
     raised = None
@@ -300,6 +334,7 @@ def run_schedule(n, pool, max_tasks, raising, tolerate, decisions, tail, via_run
             raised = repr(e)
     finally:
         par.mp = saved
+        par.os = saved_os
         _sched.shutdown()
     workers_used = len(set(t.split(":")[0] for t in _sched.trace if t.endswith("want_put")))
     want = sorted((i, None if i in raising else i * 7 + 1, "exc" if i in raising else None) for i in ids)
